@@ -100,6 +100,23 @@ func genResolveOrder() {
 	l.strList("runUnknown", runUnknownReturns(root.funcDecl("Executor.Run")))
 	l.strList("setupSteps", setupSteps(root))
 	l.strList("fuzzyTrain", fuzzyTrain(root.funcDecl("Executor.setupFuzzyModel")))
+	// the longest word the model is trained on (const fuzzyMaxWordLen; 0 = no such constant: no bound)
+	fmw := 0
+	for _, fn := range root.sortedFiles() {
+		ast.Inspect(root.files[fn], func(n ast.Node) bool {
+			if vs, ok := n.(*ast.ValueSpec); ok {
+				for i, nm := range vs.Names {
+					if nm.Name == "fuzzyMaxWordLen" && i < len(vs.Values) {
+						if v, ok := evalConst(vs.Values[i], 0); ok {
+							fmw = v
+						}
+					}
+				}
+			}
+			return true
+		})
+	}
+	l.nat("fuzzyMaxWordLen", fmw)
 	l.str("wildcardRegexp", strings.ReplaceAll(rx, "t.Task", "‹name›"))
 	l.strList("wildcardMatch", tokens(astDir.funcDecl("Task.WildcardMatch")))
 	l.write()
@@ -279,6 +296,21 @@ func fuzzyTrain(fd *ast.FuncDecl) []string {
 				}
 			}
 			return false
+		case *ast.AssignStmt:
+			// a statement that rewrites the word list outside the loops (`words = slices.DeleteFunc(words, …)`): which
+			// words are kept is part of what the model is trained on
+			if words != "" && len(x.Lhs) == 1 && len(x.Rhs) == 1 && src(x.Lhs[0]) == words {
+				rhs := src(x.Rhs[0])
+				if ce, ok := x.Rhs[0].(*ast.CallExpr); ok && len(ce.Args) == 2 {
+					if fl, ok := ce.Args[1].(*ast.FuncLit); ok && len(fl.Body.List) == 1 && len(fl.Type.Params.List) == 1 && len(fl.Type.Params.List[0].Names) == 1 {
+						if rs, ok := fl.Body.List[0].(*ast.ReturnStmt); ok && len(rs.Results) == 1 {
+							rhs = src(ce.Fun) + "(" + src(ce.Args[0]) + ", ‹word› ↦ " + replaceIdent(src(rs.Results[0]), fl.Type.Params.List[0].Names[0].Name, "‹word›") + ")"
+						}
+					}
+				}
+				out = append(out, "‹words› = "+replaceIdent(rhs, words, "‹words›"))
+				return false
+			}
 		case *ast.CallExpr:
 			if se, ok := x.Fun.(*ast.SelectorExpr); ok && (se.Sel.Name == "Train" || se.Sel.Name == "SetThreshold") {
 				args := []string{}
